@@ -29,7 +29,7 @@ def history(rng, tier):
         if r < 0.3 and not readonly:
             off, cnt = A.sub_box(shape, rng, may_exceed=0.05)
             vals = [val() for _ in range(A.prod(cnt))]
-            lines.append('da_wr %s %s %s %s' % (dt, A.idx(cnt), A.idx(off), lst(vals)))
+            lines.append('%s %s %s %s %s' % ('da_wrd' if rng.random() < 0.1 else 'da_wr', dt, A.idx(cnt), A.idx(off), lst(vals)))
         elif r < 0.55:
             off, cnt = A.sub_box(shape, rng, may_exceed=0.07)
             rdt = dt
@@ -39,7 +39,7 @@ def history(rng, tier):
                     rdt = 'Int64'
             if calibrated and rdt not in ('Double', 'Float', 'Int32', 'Int64'):
                 rdt = 'Double'
-            lines.append('da_rd %s %s %s %d' % (rdt, A.idx(cnt), A.idx(off), A.prod(cnt)))
+            lines.append('%s %s %s %s %d' % ('da_rdd' if rng.random() < 0.15 else 'da_rd', rdt, A.idx(cnt), A.idx(off), A.prod(cnt)))
         elif r < 0.62:
             lines.append('da_rd %s %s %s %d' % (dt if not calibrated else 'Double', A.idx(shape), A.idx([0] * rank), A.prod(shape)))
             # … and the typed transfers of one value / of a vector the library sizes itself
